@@ -450,6 +450,8 @@ func c12Exercise(c *ev.Ctx, cl *p9.Client, fs *fakesrv.Server, what string, tiny
 			f.WriteAt(buf, 5)
 			f.Readdir(0, 2500)
 			f.GetXattr("user.x")
+			f.GetXattr("user.big") // announced as 3*msize+7 bytes: more than one message
+			f.ListXattrs()         // likewise
 			f.Close()
 		}
 		root.Create("n", p9.ReadWrite, 0644, 1, 2)
